@@ -358,3 +358,76 @@ def rand_bytes(rng):
     if n and rng.random() < 0.8:
         b[0] = (rng.choice([0, 0, 1, 1, 1, 2, 15]) << 4) | rng.randrange(16)
     return bytes(b)
+
+
+# ---- valid messages on the boundary lattice (C01, C04, C15) ---------------------------------------
+def valid_values(r):
+    lo, hi = r
+    return [lo, lo + 1, (lo + hi) // 2, hi - 1, hi]
+
+
+def pattern_soft(n, k, c):
+    """n soft-bit octets walking through -127..127 with step k from offset c (covers every table entry)"""
+    return bytes(((((i * k + c) % 255) - 127) & 0xff) for i in range(n))
+
+
+def soft_burst(rng, n):
+    r = rng.random()
+    if r < 0.25:
+        return pattern_soft(n, rng.choice([1, 2, 7, 254]), rng.randrange(255))
+    if r < 0.35:
+        return bytes([rng.choice([0x81, 0x7f, 0x00, 0x01, 0xff])]) * n      # -127, 127, 0, 1, -1
+    return rand_soft_bits(rng, n)
+
+
+def hard_burst(rng, n):
+    r = rng.random()
+    if r < 0.1:
+        return bytes([rng.choice([0, 1])]) * n
+    if r < 0.2:
+        return bytes(rng.randrange(256) for _ in range(n))      # any octets: copied as is
+    return rand_hard_bits(rng, n)
+
+
+def valid_lattice_tx(rng):
+    """every version x burst length x each field at lo, lo+1, mid, hi-1, hi (others seeded valid)"""
+    out = []
+    for ver in VERSIONS:
+        for blen in (148, 444):
+            for f, r in (("fn", FN_R), ("tn", TN_R), ("pwr", PWR_R)):
+                for v in valid_values(r):
+                    m = rand_valid_tx(rng, ver, blen)
+                    m.burst = hard_burst(rng, blen)
+                    setattr(m, f, v)
+                    out.append(m)
+    return out
+
+
+def valid_lattice_rx(rng):
+    """every version x modulation (v1) / burst length (v0) x NOPE (v1) x each transported field at
+    lo, lo+1, mid, hi-1, hi, every TSC set and TSC (others seeded valid)"""
+    out = []
+    num = [("fn", FN_R), ("tn", TN_R), ("rssi", RSSI_R), ("toa", TOA_R)]
+    for blen in (148, 444):
+        for f, r in num:
+            for v in valid_values(r) + ([0, -1, 255, 256, -256] if f == "toa" else []):
+                m = rand_valid_rx(rng, 0, "ModGMSK" if blen == 148 else "Mod8PSK")
+                m.burst = soft_burst(rng, blen)
+                setattr(m, f, v)
+                out.append(m)
+    for mod in MOD_NAMES:
+        for f, r in num + [("ci", CI_R), ("tsc", TSC_R), ("tset", (0, 3) if mod == "ModGMSK" else (0, 1))]:
+            vals = list(range(r[0], r[1] + 1)) if f in ("tsc", "tset") else valid_values(r)
+            if f in ("toa", "ci"):
+                vals += [0, -1, 255, 256, -256]
+            for v in vals:
+                m = rand_valid_rx(rng, 1, mod, False)
+                m.burst = soft_burst(rng, MODS[mod][1])
+                setattr(m, f, v)
+                out.append(m)
+    for f, r in num + [("ci", CI_R)]:
+        for v in valid_values(r):
+            m = rand_valid_rx(rng, 1, None, True)
+            setattr(m, f, v)
+            out.append(m)
+    return out
